@@ -87,8 +87,9 @@ func validatePermTree(root *ptree.PermNode, isAccount bool) (bool, error) {
 
 		checkResult := false
 		if nameCheck == 0 {
-			// current node is AK, signature should be validated before
-			checkResult = true
+			// current node is AK: it counts only if it ends a signer URI (that signature was validated
+			// before); an AK merely named on the way to another signer (account/AK1/AK2) has not signed
+			checkResult = pnode.Signed
 		} else if nameCheck == 1 {
 			// current node is Account, so validation using ACLValidator
 			if pnode.ACL == nil {
